@@ -755,7 +755,7 @@ func main() {
 	emitSym([][]lbl{{{"__name__", "m"}, {"a", "m"}, {"b", ""}}, {{"a", "m"}}})
 
 	// ----- generated -----
-	nRec := f.Count(200, 5000)
+	nRec := f.Count(200, 3500)
 	for i := 0; i < nRec; i++ {
 		r := gen.Fork(f.Seed, i)
 		g := &genCtx{r: r, clock: 1000}
@@ -772,7 +772,7 @@ func main() {
 		}
 		emitRec(req, script, !r.Chance(1, 15), "")
 	}
-	nHead := f.Count(130, 3000)
+	nHead := f.Count(130, 2200)
 	for i := 0; i < nHead; i++ {
 		r := gen.Fork(f.Seed, 1000000+i)
 		g := &genCtx{r: r, head: true, clock: 1000}
@@ -791,7 +791,7 @@ func main() {
 		}
 		emitHead(reqs, exon, "")
 	}
-	nSym := f.Count(30, 500)
+	nSym := f.Count(30, 300)
 	for i := 0; i < nSym; i++ {
 		r := gen.Fork(f.Seed, 2000000+i)
 		g := &genCtx{r: r}
@@ -802,7 +802,7 @@ func main() {
 		}
 		emitSym(lss)
 	}
-	nHist := f.Count(80, 2500)
+	nHist := f.Count(80, 800)
 	for i := 0; i < nHist; i++ {
 		r := gen.Fork(f.Seed, 3000000+i)
 		body, nontrivial, cls, negz := histCase(r)
